@@ -281,9 +281,24 @@ def run(ctx, host=None):
     # ---------------------------------------------------------------- R4
     gt = prog.fn('container:Container.get_total_size')
     pairs = {}
+    # the result fields: `retval['k'] = v` item assignments, or keywords of the returned constructor `TotalSize(k=v, ...)` (a local bound once is followed)
+    import types as _types
+    fields = []
     for n in walk_local(gt.node):
         if isinstance(n, ast.Assign) and isinstance(n.targets[0], ast.Subscript) and isinstance(n.targets[0].slice, ast.Constant):
-            key = n.targets[0].slice.value
+            fields.append(_types.SimpleNamespace(key=n.targets[0].slice.value, value=n.value, lineno=n.lineno))
+        elif isinstance(n, ast.Return) and isinstance(n.value, ast.Call) and n.value.keywords and not any(k.arg is None for k in n.value.keywords):
+            for k in n.value.keywords:
+                v = k.value
+                if isinstance(v, ast.Name):
+                    one = [a for a in walk_local(gt.node) if isinstance(a, ast.Assign) and len(a.targets) == 1 and isinstance(a.targets[0], ast.Name) and a.targets[0].id == v.id]
+                    augs_ = [a for a in walk_local(gt.node) if isinstance(a, ast.AugAssign) and isinstance(a.target, ast.Name) and a.target.id == v.id]
+                    if len(one) == 1 and not augs_:
+                        v = one[0].value
+                fields.append(_types.SimpleNamespace(key=k.arg, value=v, lineno=k.value.lineno))
+    for n in fields:
+        if True:
+            key = n.key
             txt = norm(n.value)
             if 'func.sum(' in txt:
                 col = txt.split('func.sum(')[1].split(')')[0].split('.')[-1]
@@ -297,9 +312,9 @@ def run(ctx, host=None):
     # the on-disk totals: loose = sum of stat() over every listed loose file, pack files = sum over every listed pack, index = the index file
     frg = K.top_frame(gt)
     want_area = {'total_size_loose': ('loose', '_list_loose'), 'total_size_packfiles_on_disk': ('packs', '_list_packs'), 'total_size_packindexes_on_disk': ('index', None)}
-    for n in walk_local(gt.node):
-        if isinstance(n, ast.Assign) and isinstance(n.targets[0], ast.Subscript) and isinstance(n.targets[0].slice, ast.Constant) and n.targets[0].slice.value in want_area:
-            key = n.targets[0].slice.value
+    for n in fields:
+        if n.key in want_area:
+            key = n.key
             area, lister = want_area[key]
             srcs = [n.value]
             loops_ok = True
